@@ -362,7 +362,7 @@ SHAPES = ['plain-initial', 'plain-challenge', 'login', 'cram',
           'plain-unicode', 'plain-empty-secret', 'cancel', 'bad-b64-initial',
           'bad-b64-challenge', 'unknown-mech', 'no-arg', 'garbage-mech',
           'plain-extra-space', 'lowercase', 'plain-nonutf8',
-          'login-nonutf8', 'plain-challenge-nonutf8']
+          'login-nonutf8', 'plain-challenge-nonutf8', 'bad-b64-embedded']
 
 
 def run_auth_seq(cell):
@@ -463,6 +463,27 @@ def run_auth(cell):
         #  contain the two NULs of a PLAIN response; with LOGIN CPython's
         #  lenient decoder would accept them as a user name)
         lines = [b'AUTH PLAIN', b'*' + api.sbytes('garbage', g, 0x21, 0x7e)]
+        malformed = True
+    elif shape == 'bad-b64-embedded':
+        # a valid response with one byte from outside the base64 alphabet
+        # put in at any position, or junk behind the padding: not a valid
+        # encoding of anything the client supplied
+        good = plain_resp(user, pw)
+        junk = [b'*', b'!', b'%', b'\xff', b' '][api.choice('junk', 5)]
+        k = [0, 1, 5, len(good) - 1, len(good)][api.choice('junk_at', 5)]
+        if api.choice('mech_login', 2):
+            u = b64(user.encode())
+            k = min(k, len(u))
+            lines = [b'AUTH LOGIN', u[:k] + junk + u[k:], b64(pw.encode())]
+        elif api.choice('as_answer', 2):
+            lines = [b'AUTH PLAIN', good[:k] + junk + good[k:]]
+        else:
+            lines = [b'AUTH PLAIN ' + good[:k] + junk + good[k:]]
+        if junk == b' ':
+            # (white space at the ends of a line is the line parser's; an
+            # inner blank splits the argument - malformed all the same)
+            api.assume(0 < k < len(lines[-1 if len(lines) < 3 else 1]) - 1
+                       and k < len(good))
         malformed = True
     elif shape == 'plain-nonutf8':
         lines = [b'AUTH PLAIN ' + b64(b'\x00\xff\x00\xff')]
